@@ -433,6 +433,9 @@ class SupvisorsStateModes:
         # priority is given to existing Master instances if already identified
         all_candidates = self.get_master_identifiers()
         all_candidates.discard('')
+        # NOTE: a Master that is not seen as RUNNING anymore cannot be kept, even if it is still declared
+        #       by the remote Supvisors instances (they will drop it too)
+        all_candidates = {identifier for identifier in all_candidates if self.is_running(identifier)}
         if not all_candidates:
             # no Master identified, so get the running instances
             all_candidates = self.local_state_modes.running_identifiers()
